@@ -123,6 +123,12 @@ def gen(g, count):
             add('reg %s totals-only' % tname, ['reg'], gflags={'noColor': True}, s=dict(ts, totalsOnly=True))
         for tname, ts in (('default', {}), ('left', {'template': 'left-aligned'}), ('old', {'oldReg': True})):
             add('reg %s totals-only no-totals' % tname, ['reg'], gflags={'noColor': True}, s=dict(ts, totalsOnly=True, noTotals=True))
+        # the layout switches do not apply to the single-element and single-food reports: with them the output is what it is without
+        for key, sw in (('reg -s', {'singleElement': leaves[0].decode('utf-8', 'surrogateescape')}), ('reg -s -g', {'singleElement': leaves[0].decode('utf-8', 'surrogateescape'), 'groupFood': True}),
+                        ('reg -s --csv', {'singleElement': leaves[0].decode('utf-8', 'surrogateescape'), 'csv': True}), ('reg -f', {'singleFood': 'a'})):
+            add(key, ['reg'], gflags={'noColor': True}, s=sw)
+            add(key + ' old', ['reg'], gflags={'noColor': True}, s=dict(sw, oldReg=True))
+            add(key + ' left', ['reg'], gflags={'noColor': True}, s=dict(sw, template='left-aligned'))
         add('reg shorten', ['reg'], gflags={'noColor': True}, s={'shorten': True})
         add('reg shorten colour', ['reg'], s={'shorten': True})
         add('summary colour', ['summary'], args=(log[0][0].strftime('%Y/%m/%d'),))
@@ -140,7 +146,7 @@ def gen(g, count):
 
 def judge(ctx, groups, impl):
     def bad(grp, key, what, detail=None, signature='presentation'):
-        ctx.problem('oracle', what, grp[key], detail or {}, signature=signature)
+        ctx.problem('oracle', what, grp[key], detail or {}, signature=signature, related=list(grp.values()))
     for grp, book, log in groups:
         o = {}
         fail = False
@@ -177,6 +183,11 @@ def judge(ctx, groups, impl):
             if not (d0 == d1 == d2):
                 bad(grp, 'reg left plain', 'default / left-aligned / old register do not show the same records and numbers',
                     {'default': repr(d0)[:1200], 'left': repr(d1)[:1200], 'old': repr(d2)[:1200]}, 'templates-differ')
+            for key in ('reg -s', 'reg -s -g', 'reg -s --csv', 'reg -f'):
+                for lay in ('old', 'left'):
+                    if o[key + ' ' + lay] != o[key]:
+                        bad(grp, key + ' ' + lay, '`%s` changes when the %s layout is asked for as well' % (key, {'old': 'old reporter', 'left': 'left-aligned'}[lay]),
+                            {'plain': o[key].decode('utf-8', 'replace')[:600], 'with_layout': o[key + ' ' + lay].decode('utf-8', 'replace')[:600]}, 'layout-overrides-mode')
             # ... and so do they under --no-totals, --totals-only and both
             for mode in ('no-totals', 'totals-only', 'totals-only no-totals'):
                 k0 = 'reg %s' % mode if mode != 'totals-only no-totals' else 'reg default %s' % mode
